@@ -205,7 +205,10 @@ def analyse_one(prog, module, clsname, rep):
                     n_part += 1
                     continue
                 # whole-region alternative: allowed only under `not flattened_slice`
-                if any((c in fs_terms and pol is False) for c, pol in conds) or any((c in fs_terms and pol is False) for c, pol in m.ev.guards):
+                def _fs_test(c):
+                    # `flattened_slice` itself, or tuple(flattened_slice) (the block index computed once), used as a truth value
+                    return c in fs_terms or (c.op == "call" and tm.callee_name(c) == "builtins.tuple" and c.args[1] and c.args[1][0] in fs_terms)
+                if any((_fs_test(c) and pol is False) for c, pol in conds) or any((_fs_test(c) and pol is False) for c, pol in m.ev.guards):
                     n_whole += 1
                     continue
                 bad = (lab, steps, conds)
@@ -266,10 +269,20 @@ def _strip(t):
 
 def _is_concat_of_taskarg(fs, taskarg, I):
     """flattened_slice = [e for coords in <per-dim coords of the task arg> (if ...) for e in coords]"""
+    while fs.op == "call" and tm.callee_name(fs) in ("builtins.list", "builtins.tuple") and len(fs.args[1]) == 1 and not fs.args[2]:
+        fs = fs.args[1][0]  # list(x) / tuple(x): the same elements in the same order
     if fs.op == "sub" and fs.args[1].op == "slice":
         return False, "only a slice of the task's coordinates selects the block: %s" % tm.show(fs)[:80]
     if fs.op == "call" and tm.callee_name(fs) in ("builtins.reversed", "builtins.sorted"):
         return False, "block coordinates are reordered: %s" % tm.show(fs)[:80]
+    if fs.op == "call" and tm.callee_name(fs) in ("itertools.chain.from_iterable", "itertools.chain") and not fs.args[2]:
+        # chain.from_iterable(X) / chain(*X): the concatenation, in order, of X's elements
+        a = fs.args[1]
+        if tm.callee_name(fs) == "itertools.chain.from_iterable" and len(a) == 1:
+            return _projects_taskarg(a[0], taskarg, I)
+        if tm.callee_name(fs) == "itertools.chain" and len(a) == 1 and a[0].op == "starred":
+            return _projects_taskarg(a[0].args[0], taskarg, I)
+        return None, "flattened_slice is a chain() of something else than the task's coordinates: %s" % tm.show(fs)[:80]
     if fs.op != "comp" or len(fs.args[2]) != 2:
         return None, "flattened_slice is not the recognised two-level comprehension: %s" % tm.show(fs)[:80]
     outer, inner = fs.args[2]
@@ -280,6 +293,23 @@ def _is_concat_of_taskarg(fs, taskarg, I):
         return False, "element is not the inner coordinate"
     if it_in != T("iter", it_out, outer):
         return False, "inner loop does not iterate the outer element"
+    bad = _filtered(I.loopinfo[outer], outer) or _filtered(I.loopinfo[inner], inner)
+    if bad:
+        return False, bad
+    return _projects_taskarg(it_out, taskarg, I)
+
+
+def _filtered(li, lid):
+    """A comprehension filter other than `<element> is not None` (a dimension without coordinates) drops coordinates."""
+    el = T("iter", li["iter"], lid)
+    for c in li.get("conds") or ():
+        if c.op == "cmp" and c.args[0] == "is not" and c.args[1] == el and c.args[2] == tm.NONE:
+            continue
+        return "coordinates are filtered by `%s`: two tasks that differ only in a dropped coordinate select the same block" % tm.show(c)[:60]
+    return None
+
+
+def _projects_taskarg(it_out, taskarg, I):
     # outer iterable: the task argument itself, or an order-preserving comprehension / list over it
     src = it_out
     hops = 0
@@ -292,8 +322,11 @@ def _is_concat_of_taskarg(fs, taskarg, I):
             base = e
             while base.op in ("sub", "attr"):
                 base = base.args[0]
-            if base != T("iter", li["iter"], src.args[2][0]) or li.get("conds"):
+            if base != T("iter", li["iter"], src.args[2][0]):
                 return False, "coordinates are not a plain projection of the task argument's elements"
+            bad = _filtered(li, src.args[2][0])
+            if bad:
+                return False, bad
             src = li["iter"]
         else:
             break
@@ -311,6 +344,9 @@ def slices1d_rule(prog, rep):
     I = Interp(prog, hints.param_types_for("iindexes"), hints.FIELD_TYPES)
     fr = I.run(fi)
     ys = [ev for ev in I.events if ev.kind == "yield" and not ev.stack]
+    if not [e for e in I.events if e.kind == "call" and e["method"] == "slices1d" and not e.stack]:
+        rep.undecided("R-C16-b", fi.fq, "every 1-D slice of a dimension is yielded once with coordinates of its own", "slices1d is not the recursive generator this rule reads (no recursive call)")
+        return
     base_case = [ev for ev in ys if not ev.loops]
     rec_case = [ev for ev in ys if ev.loops]
     ok1 = len(base_case) == 1 and base_case[0]["value"].op == "tuple" and base_case[0]["value"].args[0] == tm.param("base_coords") \
